@@ -9,6 +9,7 @@ import Mahotas.Proofs.C18Filter
 import Mahotas.Proofs.C18Order3
 import Mahotas.Proofs.C18Tensor
 import Mahotas.Proofs.C18Init
+import Mahotas.Proofs.C18Order3b
 import Mathlib.Data.Rat.Floor
 
 open Mahotas Mahotas.C18
@@ -540,6 +541,30 @@ example : initFull (1 / 2 : ℚ) ((1 / 2) ^ (3 - 1)) 3 (fun k => ((k + 1 : Nat) 
   constructor
   · norm_num [initFull, stepFull, List.range_succ]
   · norm_num [MirrorInit, geomSum, mirrorExt]
+
+/-- **C18-T2/T4 (integer shifts at order 3 on a line, every source inside the array).** Closes the source-0 gap
+of `C18_integer_shift_order3_line_partial`: if the coefficient line holds what the one-pole prefilter produces from
+the samples `f` (`weight = 6`, exact pole `z² + 4z + 1 = 0`) **from the exact mirror-symmetric initial value**
+(`MirrorInit`; the code's `initFull` on lines of at most 27 samples, `C18_initFull_is_mirror_init`), then `shift` by an
+integer `d` at order 3 — the whole `zoom_shift` model, with the knot before the start folded to `c[1]` and the knot
+beyond the end folded to `c[n−2]` — returns exactly `f[kk − d]` at every output index whose source `kk − d` lies in
+`[0, n−1]`. **Still missing**: sources outside the array (border rule first, `mapCoord_int`), more than one
+dimension, orders 2 and 4, approximate poles. -/
+theorem C18_integer_shift_order3_line {K : Type} [Field K] [LinearOrder K] [IsStrictOrderedRing K]
+    {fl : K → Int} (h : IsFloor fl) (m : Mode) (cval z c0 : K) (hz : z * z + 4 * z + 1 = 0)
+    (hz1 : z * z - 1 ≠ 0) (h6 : (6 : K) ≠ 0) (n : Nat) (hn : 2 ≤ n) (f : Nat → K) (im : Img K)
+    (hshape : im.shape = [n]) (hinit : MirrorInit z n (fun i => 6 * f i) c0)
+    (hdata : ∀ k, k < n → im.getD [((k : Nat) : Int)] 0 = onePole z c0 n (fun i => 6 * f i) k)
+    (kk d : Int) (i : Nat) (hkk : 0 ≤ kk) (hi : kk - d = (i : Int)) (h2 : i + 1 ≤ n) :
+    pixel fl 3 m cval im [some (-(d : K))] [none] [kk] = f i := by
+  rcases Nat.eq_zero_or_pos i with rfl | hpos
+  · rw [pixel3_line0 h m cval im n hn hshape kk d hkk (by simpa using hi)]
+    have d0 := hdata 0 (by omega)
+    have d1 := hdata 1 (by omega)
+    simp only [Nat.cast_zero, Nat.cast_one] at d0 d1
+    rw [d0, d1]
+    exact (C18_prefilter_first_sample z c0 n hn hz1 f).2 hz h6 hinit
+  · exact C18_integer_shift_order3_line_partial h m cval z c0 hz hz1 h6 n f im hshape hdata kk d i hkk hi hpos h2
 
 /-- a 2×2 image over ℚ for the non-vacuity example below -/
 def c18Im22 : Img ℚ := { shape := [2, 2], data := #[0, 1, 2, 3] }
